@@ -662,6 +662,33 @@ static void log_prog(void)
     fflush(out);
 }
 
+/* The end of a trial as the tutorials write it: processes terminated and destroyed, then the objects (for odd program
+ * ids with an explicit _terminate before _destroy, as in tutorial/tut_1_*.c), then the event queue.  Processes still
+ * suspended are stopped first (a model run normally ends with an explicit stop of whatever is still waiting).
+ * Nothing of this is logged: the monitors and the model end at EndProg; what can show here is an abort or a
+ * sanitizer report, which the C10 check attributes to this program. */
+static void teardown(void)
+{
+    cmi_verif_sink = NULL;
+    running_pid = 0;
+    for (int i = 1; i <= P.np; i++)
+        if (cmb_process_status(proc[i]) == CMB_PROCESS_RUNNING) cmb_process_stop(proc[i], NULL);
+    for (int i = 1; i <= P.np; i++) { cmb_process_terminate(proc[i]); cmb_process_destroy(proc[i]); proc[i] = NULL; }
+    const bool twice = (P.id % 2) == 1;
+    for (int r = 1; r <= P.nres; r++) { if (twice) cmb_resource_terminate(res[r]); cmb_resource_destroy(res[r]); }
+    if (twice) cmb_resourcepool_terminate(pool);
+    cmb_resourcepool_destroy(pool);
+    if (twice) cmb_buffer_terminate(buf);
+    cmb_buffer_destroy(buf);
+    if (twice) cmb_objectqueue_terminate(oq);
+    cmb_objectqueue_destroy(oq);
+    if (twice) cmb_priorityqueue_terminate(pq);
+    cmb_priorityqueue_destroy(pq);
+    if (twice) cmb_condition_terminate(cond);
+    cmb_condition_destroy(cond);
+    cmb_event_queue_terminate();
+}
+
 static void run_program(void)
 {
     log_prog();
@@ -693,6 +720,7 @@ static void run_program(void)
             /* a valid but non-terminating program (e.g. processes restarting each other): stop observing */
             fprintf(out, "{\"e\":\"Runaway\"}\n{\"e\":\"EndProg\",\"id\":%ld}\n", P.id);
             fflush(out);
+            teardown();
             return;
         }
     }
@@ -704,6 +732,7 @@ static void run_program(void)
     }
     fprintf(out, "{\"e\":\"EndProg\",\"id\":%ld}\n", P.id);
     fflush(out);
+    teardown();
 }
 
 int main(int argc, char **argv)
